@@ -94,6 +94,12 @@ type gen struct {
 }
 
 func (g *gen) pick(xs ...string) string { return xs[g.rng.Intn(len(xs))] }
+
+// maxRows: the row limit of Execute. The library does not honour it (it never
+// suspends a portal); the spec's DoExecute ignores it, so any value must give the same conversation.
+func (g *gen) maxRows() int {
+	return []int{0, 0, 0, 1, 2, 7, 1000, 2147483647, 4294967295}[g.rng.Intn(9)]
+}
 func (g *gen) chance(p float64) bool    { return g.rng.Float64() < p }
 
 func (g *gen) text(max int) string {
@@ -256,7 +262,7 @@ func (g *gen) behC06() M {
 		case 5:
 			m = M{"t": "D", "kind": g.pick("S", "P", "S", "P", "x", "z", "hi"), "name": g.name()}
 		case 6, 7:
-			m = M{"t": "E", "portal": g.name(), "max": 0}
+			m = M{"t": "E", "portal": g.name(), "max": g.maxRows()}
 		case 8:
 			m = M{"t": "C", "kind": g.pick("S", "P", "S", "P", "z", "x"), "name": g.name()}
 		case 9:
@@ -348,7 +354,7 @@ func (g *gen) behC07() M {
 		case 5:
 			m = M{"t": "D", "kind": "P", "name": g.name()}
 		case 6, 7:
-			m = M{"t": "E", "portal": g.name(), "max": 0}
+			m = M{"t": "E", "portal": g.name(), "max": g.maxRows()}
 		case 8:
 			m = M{"t": "C", "kind": g.pick("S", "P"), "name": g.name()}
 			if run.S(m, "kind") == "S" {
@@ -464,9 +470,9 @@ func (g *gen) behC08() M {
 		if g.chance(0.7) {
 			steps = append(steps, send(M{"t": "D", "kind": "P", "name": portal}))
 		}
-		steps = append(steps, send(M{"t": "E", "portal": portal, "max": 0}))
+		steps = append(steps, send(M{"t": "E", "portal": portal, "max": g.maxRows()}))
 		if other != "" && other != portal {
-			steps = append(steps, send(M{"t": "D", "kind": "P", "name": other}), send(M{"t": "E", "portal": other, "max": 0}))
+			steps = append(steps, send(M{"t": "D", "kind": "P", "name": other}), send(M{"t": "E", "portal": other, "max": g.maxRows()}))
 		}
 		steps = append(steps, send(M{"t": "S"}))
 	}
@@ -534,7 +540,7 @@ func (g *gen) behC17() M {
 			st := M{"id": id, "cols": []any{}, "oids": []any{}, "prog": []any{M{"op": "ret", "r": "err", "err": g.richErr()}}}
 			steps = append(steps, send(M{"t": "P", "name": "", "q": M{"id": id, "parse": "ok", "stmts": []any{st}}, "noids": 0}),
 				send(M{"t": "B", "portal": "", "stmt": "", "pfmt": []any{}, "params": []any{}, "rfmt": []any{}}),
-				send(M{"t": "E", "portal": "", "max": 0}), send(M{"t": "S"}))
+				send(M{"t": "E", "portal": "", "max": g.maxRows()}), send(M{"t": "S"}))
 		default:
 			st := M{"id": id, "cols": g.cols(1), "oids": []any{}, "prog": []any{g.row("ok", 1), M{"op": "ret", "r": "err", "err": g.richErr()}}}
 			steps = append(steps, send(M{"t": "Q", "q": M{"id": id, "parse": "ok", "stmts": []any{st}}}))
@@ -573,7 +579,7 @@ func (g *gen) behC13() M {
 		if ext {
 			steps = append(steps, send(M{"t": "P", "name": "", "q": q, "noids": 0}),
 				send(M{"t": "B", "portal": "", "stmt": "", "pfmt": []any{}, "params": []any{}, "rfmt": g.codeList(nc)}),
-				send(M{"t": "E", "portal": "", "max": 0}))
+				send(M{"t": "E", "portal": "", "max": g.maxRows()}))
 		} else {
 			steps = append(steps, send(M{"t": "Q", "q": q}))
 		}
@@ -598,7 +604,7 @@ func (g *gen) behC13() M {
 					g.id++
 					m = M{"t": "Q", "q": M{"id": g.id, "parse": "ok", "stmts": []any{M{"id": g.id, "cols": []any{}, "oids": []any{}, "prog": []any{M{"op": "complete", "tag": "X"}, M{"op": "ret", "r": "nil"}}}}}}
 				case 1:
-					m = M{"t": "E", "portal": "", "max": 0}
+					m = M{"t": "E", "portal": "", "max": g.maxRows()}
 				case 2:
 					m = M{"t": "D", "kind": "P", "name": ""}
 				case 3:
@@ -778,7 +784,7 @@ func (g *gen) behC19() M {
 		case 0:
 			steps = append(steps, send(M{"t": "P", "name": "", "q": g.trivialQ(), "noids": 0}),
 				send(M{"t": "B", "portal": "", "stmt": "", "pfmt": []any{}, "params": []any{}, "rfmt": []any{}}),
-				send(M{"t": "E", "portal": "", "max": 0}), send(M{"t": "S"}))
+				send(M{"t": "E", "portal": "", "max": g.maxRows()}), send(M{"t": "S"}))
 		default:
 			q := g.trivialQ()
 			if g.chance(0.3) {
@@ -793,7 +799,7 @@ func (g *gen) behC19() M {
 		g.id++
 		steps = append(steps, send(M{"t": "P", "name": "", "q": M{"id": g.id, "parse": "err", "perr": g.simpleErr(), "stmts": []any{}}, "noids": 0}))
 		if g.chance(0.5) {
-			steps = append(steps, send(M{"t": "E", "portal": "", "max": 0}))
+			steps = append(steps, send(M{"t": "E", "portal": "", "max": g.maxRows()}))
 		}
 	}
 	if g.chance(0.6) {
@@ -1040,7 +1046,7 @@ func (g *gen) behC09() M {
 		if g.chance(0.8) {
 			steps = append(steps, send(M{"t": "D", "kind": "P", "name": ""}))
 		}
-		steps = append(steps, send(M{"t": "E", "portal": "", "max": 0}), send(M{"t": "S"}))
+		steps = append(steps, send(M{"t": "E", "portal": "", "max": g.maxRows()}), send(M{"t": "S"}))
 	}
 	cfg := baseCfg()
 	cfg["limit"] = 1 << 20
@@ -1133,7 +1139,7 @@ func (g *gen) behC18() M {
 			}
 			steps = append(steps, send(M{"t": "P", "name": "", "q": M{"id": g.id, "parse": "ok", "stmts": []any{st}}, "noids": 0}),
 				send(M{"t": "B", "portal": "", "stmt": "", "pfmt": []any{1}, "params": params, "rfmt": []any{}}),
-				send(M{"t": "E", "portal": "", "max": 0}), send(M{"t": "S"}))
+				send(M{"t": "E", "portal": "", "max": g.maxRows()}), send(M{"t": "S"}))
 		default:
 			// COPY with chunks of various sizes
 			g.id++
